@@ -89,7 +89,9 @@ def _dtype_tag(dt, fill=None):
         # truncated; the dtype of one of the estimator's own float buffers is the default
         if any(isinstance(o_, tuple) and o_ and o_[0] in ("in", "optin") for o_ in (dt.orig or ())):
             return ("dtype", t)
-        if isinstance(t, Term) and t.op == "dtype" and isinstance(dtype_base(t), Term) and dtype_base(t).op == "sym":
+        from . import terms as _terms
+
+        if isinstance(t, Term) and t.op == "dtype" and isinstance(dtype_base(t), Term) and dtype_base(t).op == "sym" and dtype_base(t).args[0] in _terms.INPUT_SYMS:
             return ("dtype", t)  # the dtype of (a selection / stacking of) symbolic caller data
         return None
     if fill is not None and fill.has_const:
